@@ -37,7 +37,7 @@ MANIFEST = {
 
 
 def plan(tier):
-    t = 300 if tier == "quick" else 1800
+    t = 300 if tier == "quick" else 900
     parts = [f"0:{c},1:{o},2:{m}" for c in range(2) for o in range(4) for m in range(5)]
     return [
         K("k_basename", "kjobs.c10", "file_base_name", "file base name strips leading underscores"),
